@@ -29,6 +29,8 @@ def rname(rng):
         except UnicodeDecodeError:
             s = "é".encode() * 3
         return list(s)
+    if k < 0.96:      # names that are not in Unicode normal form C: what the device sent is what must be reported
+        return list(rng.choice(["Cafe\u0301", "\u05e9\u05c1\u05bc\u05dc", "\u212b ngstrom", "\u1100\u1161\u11a8", "e\u0301e\u0301 x", "A\u030a"]).encode())
     return list(b"My Switcher Boiler")
 
 
@@ -159,7 +161,9 @@ class C05(BridgeProp):
         # the user's callback fails now and then, and now and then a device sends a name cut inside a multi-byte character:
         # every OTHER broadcast must still be decoded exactly
         for k in range(7, len(dg), 23):
-            dg[k]["cbraise"] = True
+            dg[k]["cbraise"] = ["exc", "base", "cancelled"][(k // 23) % 3]
+        for k in range(13, len(dg), 37):          # the same broadcast again at once (devices repeat themselves every few seconds)
+            dg.insert(k, dict(dg[k - 1]))
         for k in range(11, len(dg), 41):
             dg.insert(k, {"do": "dgram", "p": dg[k]["p"], "d": rdev(rng, name=cut_name(rng))})
         for k in range(0, len(dg), 100):
@@ -195,8 +199,21 @@ class C06(BridgeProp):
         for n in range(0, 401):
             for magic in ("no", "yes", "near"):
                 dg.append({"do": "dgram", "p": PORTS[0], "d": {"t": "random", "n": n, "magic": magic, "seed": rng.randrange(1 << 30)}})
+        for n in list(range(4, 401)):
+            if n not in (159, 165, 168):          # magic AND a length field that matches the received length, but a wrong length
+                b = bytearray(rng.randbytes(n))
+                b[0:2] = b"\xfe\xf0"
+                b[2:4] = n.to_bytes(2, "little")
+                if n >= 76 and rng.random() < 0.5:
+                    b[74:76] = bytes.fromhex(rng.choice(list(CODES.values())))
+                dg.append({"do": "dgram", "p": PORTS[0], "d": {"t": "raw", "b": list(b)}})
         for typ in TYPES:
             base = rdev(rng, typ)
+            for delta in (-1, 1, 2, 5):           # a real broadcast padded / cut, with its length field corrected
+                raw = bytearray(make_datagram(base))
+                raw = raw[:delta] if delta < 0 else raw + bytes(delta)
+                raw[2:4] = len(raw).to_bytes(2, "little")
+                dg.append({"do": "dgram", "p": PORTS[0], "d": {"t": "raw", "b": list(raw)}})
             for cut in (1, 2, 3):
                 dg.append({"do": "dgram", "p": PORTS[0], "d": {"t": "mutate", "of": base, "cut": cut}})
                 dg.append({"do": "dgram", "p": PORTS[0], "d": {"t": "mutate", "of": base, "extend": cut, "seed": 3}})
@@ -281,7 +298,7 @@ class C07(BridgeProp):
                 else:
                     d = rdev(rng, name=rng.choice([[0xFF, 0xFE, 0x41], cut_name(rng)]))     # undecodable name
                 prev = d
-                dg.append({"do": "dgram", "p": p, "d": d, "cbraise": rng.random() < 0.2})
+                dg.append({"do": "dgram", "p": p, "d": d, "cbraise": rng.choice(["exc", "exc", "base", "cancelled"]) if rng.random() < 0.2 else False})
             out.append(wrap(ports, dg))
         # bursts: several datagrams reach the sockets in the same loop iteration (also across ports), some callbacks raise,
         # some datagrams cannot be decoded; every delivery is attributed by the device id the harness put into the datagram
@@ -304,7 +321,7 @@ class C07(BridgeProp):
                         d["code"] = [rng.randrange(256), rng.randrange(256)]
                     else:
                         d = {"t": "random", "n": rng.choice([0, 3, 159, 165, 168]), "magic": "no", "seed": rng.randrange(1 << 30)}
-                    items.append({"p": rng.choice(ports), "d": d, "cbraise": rng.random() < 0.3})
+                    items.append({"p": rng.choice(ports), "d": d, "cbraise": rng.choice(["exc", "base", "cancelled"]) if rng.random() < 0.3 else False})
                 steps.append({"do": "burst", "items": items, "yields": rng.choice([2, 3, 5])})
                 steps.append({"do": "dgram", "p": rng.choice(ports), "d": rdev(rng), "cbraise": False})
             steps += [{"do": "stop"}, {"do": "cycle"}]
@@ -406,6 +423,12 @@ class C17(BridgeProp):
             if rng.random() < 0.5:
                 steps += [{"do": "start"}, {"do": "dgram", "p": rng.choice(ps), "d": rdev(rng), "cbraise": False}, {"do": "stop"}, {"do": "cycle"}]
             out.append({"ports": ps, "steps": steps})
+        # start() cancelled after k loop cycles (task cancellation, a timeout): stop() must still release what it had opened
+        for nports in (1, 2, 3, 4):
+            for k in range(0, nports + 2):
+                ps = PORTS[:nports]
+                for tail in ([{"do": "stop"}, {"do": "cycle"}], [{"do": "dgram", "p": ps[0], "d": rdev(rng), "cbraise": False}, {"do": "stop"}, {"do": "cycle"}, {"do": "start"}, {"do": "stop"}, {"do": "cycle"}]):
+                    out.append({"ports": ps, "steps": [{"do": "start-cancelled", "k": k}] + tail})
         # a port number that cannot be bound at all (the bind fails with an error that is not an OSError), listed after good ones
         for badp in (70000, 65536, -1, 100000):
             for ps in ([PORTS[0], badp], [PORTS[0], PORTS[1], badp], [badp, PORTS[0]], [PORTS[0], badp, PORTS[1]]):
